@@ -103,3 +103,121 @@ pub fn init_pool() {
     let n = std::thread::available_parallelism().map(|n| n.get()).unwrap_or(8);
     let _ = rayon::ThreadPoolBuilder::new().num_threads(n).stack_size(16 << 20).build_global();
 }
+
+// ---------------------------------------------------------------------------------------------
+// entry-point agreement: every public way of loading the same bytes gives the same document
+
+/// `Read` that hands out at most `chunk` bytes per call (short reads).
+pub struct ChunkReader<'a> {
+    pub data: &'a [u8],
+    pub pos: usize,
+    pub chunk: usize,
+}
+
+impl std::io::Read for ChunkReader<'_> {
+    fn read(&mut self, buf: &mut [u8]) -> std::io::Result<usize> {
+        let n = buf.len().min(self.chunk).min(self.data.len() - self.pos);
+        buf[..n].copy_from_slice(&self.data[self.pos..self.pos + n]);
+        self.pos += n;
+        Ok(n)
+    }
+}
+
+/// Exact comparison of two loaded documents (no tolerance: the same bytes were read twice).
+pub fn same_document(a: &Document, b: &Document) -> Option<String> {
+    if a.version != b.version {
+        return Some(format!("version {:?} vs {:?}", a.version, b.version));
+    }
+    if a.max_id != b.max_id {
+        return Some(format!("max_id {} vs {}", a.max_id, b.max_id));
+    }
+    if a.objects != b.objects {
+        return Some(crate::cmp::diff_objects(&a.objects, &b.objects).unwrap_or_else(|| "objects differ (below the tolerance of the structural comparison)".into()));
+    }
+    if a.trailer != b.trailer {
+        return Some(format!("trailer {} vs {}", crate::objjson::show(&lopdf::Object::Dictionary(a.trailer.clone())), crate::objjson::show(&lopdf::Object::Dictionary(b.trailer.clone()))));
+    }
+    if format!("{:?}", a.reference_table) != format!("{:?}", b.reference_table) {
+        return Some("cross-reference tables differ".into());
+    }
+    if a.bookmarks != b.bookmarks || a.bookmark_table.len() != b.bookmark_table.len() {
+        return Some("bookmark state differs".into());
+    }
+    None
+}
+
+/// A fresh path under /verif/target/scratch (the caller removes the file).
+pub fn scratch_path() -> Result<std::path::PathBuf, String> {
+    use std::sync::atomic::{AtomicU64, Ordering};
+    static N: AtomicU64 = AtomicU64::new(0);
+    let root = std::env::var("VERIF_ROOT").unwrap_or_else(|_| "/verif".into());
+    let dir = std::path::Path::new(&root).join("target").join("scratch");
+    std::fs::create_dir_all(&dir).map_err(|e| format!("scratch dir: {}", e))?;
+    Ok(dir.join(format!("{}-{}.pdf", std::process::id(), N.fetch_add(1, Ordering::Relaxed))))
+}
+
+fn scratch_file(bytes: &[u8]) -> Result<std::path::PathBuf, String> {
+    let p = scratch_path()?;
+    std::fs::write(&p, bytes).map_err(|e| format!("scratch file: {}", e))?;
+    Ok(p)
+}
+
+fn keep_all(id: (u32, u16), o: &mut lopdf::Object) -> Option<((u32, u16), lopdf::Object)> {
+    Some((id, o.clone()))
+}
+
+/// Load `bytes` through every other public entry point and compare with the `load_mem` outcome
+/// `base`. `paths` adds the path-taking functions (a scratch file under /verif/target/scratch).
+/// Returns the first disagreement. Err(..) = machinery problem (scratch file).
+pub fn entry_point_agreement(bytes: &[u8], base: &Result<Document, String>, paths: bool) -> Result<Option<String>, String> {
+    let cmp = |name: &str, other: Result<Document, String>| -> Option<String> {
+        match (base, &other) {
+            (Ok(a), Ok(b)) => same_document(a, b).map(|m| format!("{} differs from load_mem: {}", name, m)),
+            (Err(_), Err(_)) => None,
+            (Ok(_), Err(e)) => Some(format!("{} fails ({}) where load_mem succeeds", name, e)),
+            (Err(e), Ok(_)) => Some(format!("{} succeeds where load_mem fails ({})", name, e)),
+        }
+    };
+    let wrap = |r: Result<lopdf::Result<Document>, String>| match r {
+        Ok(Ok(d)) => Ok(d),
+        Ok(Err(e)) => Err(format!("load error: {}", e)),
+        Err(p) => Err(p),
+    };
+    for chunk in [1usize, 4093] {
+        if chunk == 1 && bytes.len() > 20_000 {
+            continue;
+        }
+        let r = wrap(guard(|| Document::load_from(ChunkReader { data: bytes, pos: 0, chunk })));
+        if let Some(m) = cmp(&format!("load_from({}-byte reads)", chunk), r) {
+            return Ok(Some(m));
+        }
+    }
+    let r = wrap(guard(|| lopdf::IncrementalDocument::load_from(ChunkReader { data: bytes, pos: 0, chunk: 777 }).map(|i| {
+        let same_bytes = i.get_prev_documents_bytes() == bytes;
+        let mut d = i.get_prev_documents().clone();
+        if !same_bytes {
+            d.version = "previous bytes differ from the input".into();
+        }
+        d
+    })));
+    if let Some(m) = cmp("IncrementalDocument::load_from", r) {
+        return Ok(Some(m));
+    }
+    let r = wrap(guard(|| lopdf::IncrementalDocument::load_mem(bytes)));
+    if let Some(m) = cmp("IncrementalDocument::load_mem", r) {
+        return Ok(Some(m));
+    }
+    if paths {
+        let p = scratch_file(bytes)?;
+        let r1 = wrap(guard(|| Document::load(&p)));
+        let r2 = wrap(guard(|| Document::load_filtered(&p, keep_all)));
+        let r3 = wrap(guard(|| lopdf::IncrementalDocument::load(&p).map(|i| i.get_prev_documents().clone())));
+        let _ = std::fs::remove_file(&p);
+        for (n, r) in [("Document::load(path)", r1), ("Document::load_filtered(path, keep-all filter)", r2), ("IncrementalDocument::load(path)", r3)] {
+            if let Some(m) = cmp(n, r) {
+                return Ok(Some(m));
+            }
+        }
+    }
+    Ok(None)
+}
